@@ -185,7 +185,7 @@ def build_batches(ctx):
         corpus.extend(parse_case_file(f.read_text()))
     batches.append(("corpus", corpus))
     # (a) exhaustive small histories
-    nfull = 4 if q else 6
+    nfull = 5 if q else 6
     for n in range(1, nfull + 1):
         cs = list(gen_perms(n))
         if n == 6:
@@ -196,8 +196,8 @@ def build_batches(ctx):
             batches.append(("perm%d" % n, cs))
     rng = random.Random(ctx.subseed("perm-sample"))
     if q:
-        batches.append(("perm5s", list(gen_perms(5, rng, 1200))))
-        batches.append(("perm7s", list(gen_perms(7, rng, 300))))
+        batches.append(("perm6s", list(gen_perms(6, rng, 1500))))
+        batches.append(("perm7s", list(gen_perms(7, rng, 1500))))
     else:
         for j in range(4):
             batches.append(("perm7s.%d" % j, list(gen_perms(7, rng, 15000))))
@@ -347,6 +347,29 @@ def oracle_case(ops, lines):
     return None
 
 
+def well_formed(ops):
+    """the caller obligation of the API: a node that is linked in the tree is not inserted again"""
+    res, linked = {}, set()
+    for o in ops:
+        if o[0] == "I":
+            _, k, i = o
+            if i in linked or i < 1:
+                return False
+            if k not in res:
+                res[k] = i
+                linked.add(i)
+        elif o[0] == "R" and o[1] in res:
+            linked.discard(res.pop(o[1]))
+    return True
+
+
+def sanitizer_summary(text):
+    for ln in text.splitlines():
+        if "runtime error" in ln or "ERROR: AddressSanitizer" in ln or "SUMMARY" in ln:
+            return ln.strip()[:300]
+    return " ".join(text.split())[-300:]
+
+
 def split_cases(text):
     """driver output -> list of line lists, one per case (without the H line)."""
     cases = []
@@ -381,17 +404,30 @@ class Runner:
         return lines, rc, ""
 
     def fails(self, ops):
-        lines, rc, tail = self.c_full(ops)
+        lines, rc, tail = self.c_full(ops, timeout=6 if len(ops) <= 1500 else 25)
         r = oracle_case(ops, lines)
-        if r is None and rc != 0:
-            r = (len(lines), "crash", "exit status %d: %s" % (rc, tail[-300:]))
+        if rc != 0:
+            why = ("no answer within the time limit (endless loop)" if rc == 124
+                   else "exit status %d: %s" % (rc, sanitizer_summary(tail)))
+            if r is None or r[1] == "crash":
+                r = (len(lines), "hang" if rc == 124 else "crash",
+                     "operation %d (%s): %s" % (len(lines), " ".join(map(str, ops[len(lines)])) if len(lines) < len(ops) else "?", why))
         return r
 
 
-def shrink(runner, ops, first):
-    """cut after the failing op, then delta-debug the op list (any property failure counts)."""
+def shrink(runner, ops, first, budget=30.0):
+    """cut after the failing op, then delta-debug the op list; candidates must stay well-formed histories;
+    any failure of the property counts.  Bounded by a wall-clock budget."""
+    import time
+    t_end = time.time() + budget
     ops = list(ops[:first[0] + 1])
-    ops = vlib.ddmin(ops, lambda cand: runner.fails(cand) is not None, max_tests=300)
+
+    def pred(cand):
+        if time.time() > t_end or not well_formed(cand):
+            return False
+        return runner.fails(cand) is not None
+
+    ops = vlib.ddmin(ops, pred, max_tests=300)
     return ops, runner.fails(ops)
 
 
@@ -419,7 +455,21 @@ def run_batch(args):
 
 
 def run(ctx):
-    ctx.prove()
+    if not ctx.quick:
+        # thorough: rebuild this property's files from clean, and re-check the compiled theory with coqchk
+        for f in list((vlib.COQ / PID).glob("*.vo")) + [vlib.COQ / "Properties_C02.vo"]:
+            if f.exists():
+                f.unlink()
+    proved = ctx.prove()
+    if proved and not ctx.quick:
+        rc, out = vlib.sh(["coqchk", "-silent", "-o", "-Q", ".", "LibaV", "LibaV.Properties_C02"], cwd=vlib.COQ, timeout=900)
+        ax = re.search(r"\* Axioms:\s*(.*?)\n\s*\n", out, flags=re.S)
+        if rc != 0:
+            ctx.tie_broken("coqchk rejected LibaV.Properties_C02: " + " ".join(out.split())[-400:])
+        else:
+            ctx.cov["trusted_base"].append("coqchk -o on LibaV.Properties_C02 (thorough tier): accepted; axioms: %s"
+                                           % (" ".join(ax.group(1).split()) if ax else "?"))
+            ctx.cov["checker_cmd"] += "; coqchk -silent -o -Q . LibaV LibaV.Properties_C02"
     cbin = ctx.cc("rbt_drv", [HARN / "rbt_drv.c"], repo_srcs=["rbt.c"], mode="asan")
     ml = ctx.extract("C02/Extract.v", ["C02/extracted/rbt.ml", "C02/extracted/rbt.mli"])
     mbin = ctx.ocaml_build("rbt_mdrv", [ml[1], ml[0], HARN / "rbt_mdrv.ml"])
@@ -430,7 +480,7 @@ def run(ctx):
     jobs = []
     for name, cs in batches:
         text = "".join(fmt_case(j, ops) for j, ops in enumerate(cs))
-        jobs.append((name, text, cbin, mbin, 120 if ctx.quick else 500))
+        jobs.append((name, text, cbin, mbin, 45 if ctx.quick else 240))
     tags, totals = {}, {"NONTRIVIAL": 0, "CASES": 0, "OPS": 0, "MAXN": 0}
     suspects = []           # (origin, ops) of cases on which C and model disagree
     bydict = dict(batches)
@@ -503,7 +553,13 @@ def run(ctx):
             pool.append(("fresh random case %d" % j,
                          gen_random(fresh, fresh.choice([30, 120, 400]), fresh.choice([8, 32, 200, 1 << 20]))))
     kinds, checked = set(), 0
+    import time
+    t_stop = time.time() + (60 if ctx.quick else 240)
     for origin, ops in suspects + pool:
+        if time.time() > t_stop and (kinds or not ctx.broken_ties):
+            break
+        if not well_formed(ops):
+            continue
         f = runner.fails(ops)
         checked += 1
         if f is not None and f[1] not in kinds:
